@@ -196,6 +196,7 @@ func (c15) Plan(tier string) []fw.Unit {
 		us = append(us, fw.Unit{Check: "C15", Kind: "within", Tier: tier, Spec: fw.Spec(enumSpec{Shard: sh, Shards: 8})})
 	}
 	us = append(us, fw.Unit{Check: "C15", Kind: "empty-rows", Tier: tier, Spec: fw.Spec(enumSpec{})})
+	us = append(us, fw.Unit{Check: "C15", Kind: "missing-column", Tier: tier, Spec: fw.Spec(enumSpec{})})
 	return append(us, fw.Unit{Check: "C15", Kind: "key-pairs", Tier: tier, Spec: fw.Spec(enumSpec{})})
 }
 
@@ -428,6 +429,9 @@ func (c15) Run(u fw.Unit) fw.Result {
 	}
 	if u.Kind == "empty-rows" {
 		return c15EmptyRows()
+	}
+	if u.Kind == "missing-column" {
+		return c15MissingColumn()
 	}
 	sp := parseEnum(u)
 	a := newAcc("C15", "cep")
